@@ -9,40 +9,30 @@ From Aldrin Require Import gen.BrokerConsts Broker.Model Broker.Run Broker.Chann
 From Coq Require Import Lia.
 Local Open Scope N_scope.
 
-Ltac mx_frame H :=
-  let Hreg := fresh "Hreg" in let Huo := fresh "Huo" in let Hus := fresh "Hus" in
-  let Hoo := fresh "Hoo" in let Hol := fresh "Hol" in let Hos := fresh "Hos" in
-  let Hoc := fresh "Hoc" in let Hch := fresh "Hch" in let Hcs := fresh "Hcs" in
-  let Hsc := fresh "Hsc" in let Hcb := fresh "Hcb" in let Hce := fresh "Hce" in
-  let Hec := fresh "Hec" in let Hqe := fresh "Hqe" in let Hqn := fresh "Hqn" in
-  let Hcl := fresh "Hcl" in
-  destruct H as [Hreg Huo Hus Hoo Hol Hos Hoc Hch Hcs Hsc Hcb Hce Hec Hqe Hqn Hcl];
-  constructor; cbn; try assumption.
-
 (* ---------------------------------------------------------------- remove_listener *)
 Lemma own_lis_mono X L L' : L' ⊆ L → own_lis X L → own_lis X L'.
 Proof. intros Hs H k l Hk. eapply H, lookup_weaken; eauto. Qed.
 
-Lemma remove_listener_spec X m k :
-  MX X m →
-  MX X (remove_listener m k) ∧ blank_lis (ms (remove_listener m k)) = blank_lis (ms m) ∧
+Lemma remove_listener_spec O X m k :
+  MO O X m →
+  MO O X (remove_listener m k) ∧ blank_lis (ms (remove_listener m k)) = blank_lis (ms m) ∧
   mw (remove_listener m k) = mw m ∧ mo (remove_listener m k) = mo m ∧
   listeners (ms (remove_listener m k)) = delete k (listeners (ms m)).
 Proof.
   intros H. unfold remove_listener. destruct (listeners (ms m) !! k) eqn:E.
-  - split; [|done]. unfold MX in *. mx_frame H. eapply own_lis_mono; [|done]. apply delete_subseteq.
+  - split; [|done]. unfold MO in *. mx_frame H. eapply own_lis_mono; [|done]. apply delete_subseteq.
   - split; [done|]. repeat split; try done. by rewrite delete_notin.
 Qed.
 
-Lemma remove_listeners_spec X ls m :
-  MX X m →
+Lemma remove_listeners_spec O X ls m :
+  MO O X m →
   let m' := foldl remove_listener m ls in
-  MX X m' ∧ blank_lis (ms m') = blank_lis (ms m) ∧ mw m' = mw m ∧ mo m' = mo m ∧
+  MO O X m' ∧ blank_lis (ms m') = blank_lis (ms m) ∧ mw m' = mw m ∧ mo m' = mo m ∧
   ∀ k, listeners (ms m') !! k = if decide (k ∈ ls) then None else listeners (ms m) !! k.
 Proof.
   revert m. induction ls as [|x ls IH]; intros m H; cbn.
   - split; [done|]. repeat split; done.
-  - destruct (remove_listener_spec X m x H) as (H1 & H2 & H3 & H4 & H5).
+  - destruct (remove_listener_spec O X m x H) as (H1 & H2 & H3 & H4 & H5).
     destruct (IH _ H1) as (I1 & I2 & I3 & I4 & I5). cbn in *.
     split; [done|]. split; [congruence|]. split; [congruence|]. split; [congruence|].
     intros k. rewrite I5, H5.
@@ -73,10 +63,10 @@ Proof.
   unfold chan_close. destruct ch as [[|so sc|] [|ro rc|]], e; cbn; intros [= <- <-] H1 H2; cbn; done.
 Qed.
 
-Lemma remove_end_spec X m cookie e :
-  MX X m →
+Lemma remove_end_spec O X m cookie e :
+  MO O X m →
   (∀ ch, chans (ms m) !! cookie = Some ch → end_of ch e ≠ Closed) →
-  ∃ m', remove_end m cookie e = Done m' ∧ MX X m' ∧
+  ∃ m', remove_end m cookie e = Done m' ∧ MO O X m' ∧
     blank_chans (ms m') = blank_chans (ms m) ∧
     w_rm_call (mw m') = w_rm_call (mw m) ∧ w_abort (mw m') = w_abort (mw m) ∧
     (chans (ms m') = delete cookie (chans (ms m)) ∨
@@ -86,10 +76,10 @@ Proof.
   intros H Hne. unfold remove_end. destruct (chans (ms m) !! cookie) as [ch|] eqn:E.
   2:{ exists m. split; [done|]. split; [done|]. repeat split; try done. left. by rewrite delete_notin. }
   specialize (Hne _ eq_refl).
-  assert (chan_ok ch) as Hok by (eapply (iv_ch _ _ _ _ H); eauto).
+  assert (chan_ok ch) as Hok by (eapply (iv_ch _ _ _ _ _ H); eauto).
   pose proof (close_ok ch e Hok Hne) as Hc.
-  assert (MX X (m <| ms; chans ::= delete cookie |> <| ms; st; n_chans ::= sat_sub1 |>)) as Hdrop.
-  { unfold MX in *. mx_frame H.
+  assert (MO O X (m <| ms; chans ::= delete cookie |> <| ms; st; n_chans ::= sat_sub1 |>)) as Hdrop.
+  { unfold MO in *. mx_frame H.
     - eapply own_chan_mono; [apply delete_subseteq|done].
     - eapply chans_ok_mono; [apply delete_subseteq|done]. }
   destruct (chan_close ch e) as [|ch' o|] eqn:Ecl; [| |done].
@@ -98,11 +88,11 @@ Proof.
     + apply has_spec in Eh.
       destruct (send_or_remove_done _ o (ChannelEndClosed cookie e) None Eh) as (m' & -> & Hq).
       exists m'. split; [done|]. destruct Hq as (Hq1 & Hq2 & Hq3).
-      destruct (iv_oc _ _ _ _ H _ _ E) as [Ho1 Ho2].
+      destruct (iv_oc _ _ _ _ _ H _ _ E) as [Ho1 Ho2].
       destruct (close_notify_own X _ _ _ _ Ecl Ho1 Ho2) as (Hn1 & Hn2 & _).
       split.
-      { eapply MX_quiet; [split; [exact Hq1|split; [exact Hq2|exact Hq3]]|].
-        unfold MX in *. mx_frame H.
+      { eapply MO_quiet; [split; [exact Hq1|split; [exact Hq2|exact Hq3]]|].
+        unfold MO in *. mx_frame H.
         - by apply own_chan_insert.
         - by apply chans_ok_insert. }
       rewrite Hq1, Hq2, Hq3. cbn. repeat split; try done. right. eauto 10.
